@@ -59,10 +59,6 @@ theorem connGood_iff {s : Side} {c : Conn} :
   ⟨fun ⟨a, b, c, d, e, f, g, h, i, j⟩ => ⟨a, b, c, d, e, f, g, h, i, j⟩,
    fun ⟨a, b, c, d, e, f, g, h, i, j⟩ => ⟨a, b, c, d, e, f, g, h, i, j⟩⟩
 
-theorem allLt_append_last {k n : Int} {m : Msg} {rs : Rows} (h : AllLt k rs) (hk : k < n) :
-    AllLt n (rs ++ [(k, m)]) :=
-  allLt_append_singleton (allLt_mono (by omega) h) hk
-
 /-- facts of a well-formed connection in the shape the evaluation uses -/
 structure ConnFacts (s : Side) (c : Conn) : Prop where
   g1 : c.sess.sender = s.name
